@@ -29,7 +29,7 @@ type Case struct {
 func TestMain(m *testing.M) {
 	h.Setup("C20",
 		"F-core and F-accel ASTs (literals, classes incl. negated classes and subtractions, ranges inside one case block, backreferences, leading literals for the prefix-search paths) compiled with IgnoreCase (+ subsets of m,s,n and, 1 in 5, RightToLeft; 1 in 6 patterns carry a backreference inside a lookbehind: (w)-w(?<=\\1)), letters from simple upper/lower pairs (ASCII without k/s, Latin-1, Greek, Cyrillic) x pattern-directed inputs x random flip masks over the input's cased letters x one case-flipped printing of the pattern (literal letters, class members, both endpoints of a range together); one evaluation = one (pattern,input,mask): the rune and string find results (position, length, all captures) before and after flipping the input, and with the flipped pattern, must be equal; non-trivial = the unflipped case matches and a flipped input letter lies inside the match, or the pattern flip changed at least one letter and the case matches; distinct = hash of (pattern, options, input, mask)",
-		map[string]float64{"match": 0.3, "flip-inside-match": 0.15, "pattern-flipped/patterns": 0.5, "has-class/patterns": 0.3, "has-backref/patterns": 0.04, "prefix-filter": 0.1},
+		map[string]float64{"match": 0.3, "flip-inside-match": 0.09, "pattern-flipped/patterns": 0.5, "has-class/patterns": 0.3, "has-backref/patterns": 0.04, "prefix-filter": 0.1},
 		"letters are restricted to fold orbits of size two, where case-insensitivity has one agreed meaning")
 	h.Ceiling("compile-error", 0.02)
 	h.Main(m)
